@@ -22,7 +22,9 @@ STATUS_T = STATUS_Q + [202, 205, 301, 303, 307, 399, 400, 403, 410, 503]
 # other-host 'http://localhost:<port>/cN/b' (different host name, nothing asserted for u2)
 LINKS_CORE = [[], [('Location', 'abs-path')], [('Location', 'abs-same')], [('Location', 'other-host')],
               [('Content-Location', 'abs-path')], [('Content-Location', 'abs-same')], [('Content-Location', 'other-host')]]
-LINKS_REL = [[('Location', 'rel')], [('Content-Location', 'rel')]]
+LINKS_REL = [[('Location', 'rel')], [('Content-Location', 'rel')],
+             # a relative reference whose query contains ':' (and '/'): still relative, the first path segment has no colon
+             [('Location', 'rel-query-colon')], [('Content-Location', 'rel-query-colon')]]
 # further forms, swept (thorough) over a reduced method/status set
 LINKS_SWEEP = [[('Location', 'other-host'), ('Content-Location', 'abs-same')],
                [('Location', 'abs-path'), ('Content-Location', 'other-host')],
@@ -30,7 +32,8 @@ LINKS_SWEEP = [[('Location', 'other-host'), ('Content-Location', 'abs-same')],
                [('Location', 'rel-query')], [('Content-Location', 'rel-query')]]
 SWEEP_METHODS = ['POST', 'PUT', 'DELETE', 'FOO']
 SWEEP_STATUS = [200, 204, 302, 404]
-SAME_HOST_FORMS = ('abs-path', 'rel', 'abs-same', 'abs-same-lc-name', 'abs-same-ows', 'rel-query')
+SAME_HOST_FORMS = ('abs-path', 'rel', 'abs-same', 'abs-same-lc-name', 'abs-same-ows', 'rel-query', 'rel-query-colon')
+QUERY_OF_FORM = {'rel-query': '?z=1', 'rel-query-colon': '?at=12:30&back=http://elsewhere.example/x'}
 PRIME_T = ['plain', 'vary', 'etag']
 QUERY_T = ['', '?q=1']
 
@@ -72,8 +75,8 @@ def _link_value(w, form, n):
         return '/c%d/b' % n
     if form == 'rel':
         return 'b'
-    if form == 'rel-query':
-        return 'b?z=1'
+    if form in QUERY_OF_FORM:
+        return 'b' + QUERY_OF_FORM[form]
     if form in ('abs-same', 'abs-same-lc-name', 'abs-same-ows'):
         return 'http://%s/c%d/b' % (w.hostport(), n)
     if form == 'other-host':
@@ -85,8 +88,10 @@ def run_case(w, case):
     n = case['n']
     pu = '/c%d/a%s' % (n, case['query'])
     pu2 = '/c%d/b' % n
-    if any(f == 'rel-query' for _, f in case['link']):
-        pu2 += '?z=1'
+    for _, f in case['link']:
+        if f in QUERY_OF_FORM:
+            pu2 += QUERY_OF_FORM[f]
+            break
     tr = []
     version = {'v': 1}
     extra_req = 'X-V: k\r\n' if case['prime'] == 'vary' else ''
